@@ -515,7 +515,12 @@ def ref_apply(fam, T, state, raw):
             raise Reject("notSubclass")
     params = target_params(fam, target)
     if state and state["t"] != target:
-        kept = {k: v for k, v in state["ia"].items() if param_of(params, k) and value_fits(fam, param_of(params, k), v)}
+        kept = {}
+        for k, v in state["ia"].items():
+            q = param_of(params, k)
+            if q and value_fits(fam, q, v):
+                # a kept scalar is what the new class's type makes of it (an int kept for a float parameter is a float)
+                kept[k] = scalar_conv(q["ty"][1], v) if q["ty"][0] in ("scalar", "optScalar") and v is not None else v
         kept_dk = {}                      # the property: nothing of the old class that the new one does not accept survives
     else:
         kept = dict(state["ia"]) if state else {}
@@ -1011,6 +1016,8 @@ def none_carry_cases(rng, fam):
                     seqs.append([{"form": "value", "raw": {"cp": name_notation(rng, fam, T, X), "ia": dict(ia_x, **{p["name"]: rng.choice(SCALARS[p["ty"][1]])}), "dk": None}, "via": "argv"},
                                  {"form": "value", "raw": to_y, "via": "argv"}])
                     for sq in seqs:
+                        if sq[0]["form"] == "default" and reference(fam, T, sq[:1])[0] != "ok":
+                            continue         # the default itself must be a complete, valid spec
                         if not has_dk_before_change(fam, T, sq):
                             out.append((fam, T, sq))
     rng.shuffle(out)
